@@ -110,7 +110,7 @@ def configs(args, tier, rnd, feature_args=()):
 
 def jobs(tier, seed):
     js = []
-    for ep in ("mf", "mf2", "fair", "fairw", "moment", "lagrangian", "gs", "to"):
+    for ep in ("mf", "mf2", "fair", "fairw", "moment", "bgl", "lagrangian", "gs", "to"):
         js.append({"id": f"{ep}-containers", "kind": "containers", "entry": ep, "seed": seed})
         if ep not in ("fairw", "mf2"):
             js.append({"id": f"{ep}-perm", "kind": "perm", "entry": ep, "seed": seed})
@@ -216,6 +216,20 @@ def ep_moment(v, a):
     return out
 
 
+def ep_bgl(v, a):
+    """a loss moment: per-group mean loss and the per-row weights lambda_g / P(g), under containers / index labels / row permutations"""
+    import fairlearn.reductions as red
+
+    m = red.BoundedGroupLoss(red.SquareLoss(0, 1), upper_bound=0.1)
+    m.load_data(a["X"], a["y"], sensitive_features=a["sf"])
+    g = m.gamma(lambda X: np.array(v["h"], dtype=object))
+    lam = pd.Series(v["lam"][:len(m.index)], index=m.index, dtype=object)
+    w = m.signed_weights(lam)
+    out = {f"gamma{e}": g[e] for e in m.index}
+    out.update({f"w{i}": w.iloc[i] for i in range(len(w))})
+    return out
+
+
 def ep_lagrangian(v, a):
     import fairlearn.reductions as red
     from fairlearn.reductions._exponentiated_gradient._lagrangian import _Lagrangian
@@ -276,6 +290,7 @@ EPS = {
     "mf2": (ep_mf2, ["sf2"], ()),
     "fair": (ep_fair, ["y", "yp", "w", "sf"], ("sf",)),
     "moment": (ep_moment, ["y", "sf", "cf"], ()),
+    "bgl": (ep_bgl, ["y", "sf"], ()),
     "lagrangian": (ep_lagrangian, ["y", "sf"], ()),
     "gs": (ep_gs, ["y", "sf"], ()),
     "to": (ep_to, ["y", "sf"], ()),
@@ -295,7 +310,7 @@ def _values(ep):
         from symx.core import integer
 
         v["bp"] = [integer(f"bp{i}", 0, 1) for i in range(N)]
-    elif ep in ("moment", "lagrangian", "gs"):
+    elif ep in ("moment", "bgl", "lagrangian", "gs"):
         v["h"] = [real(f"h{i}", 0, 1) for i in range(N)]
         v["lam"] = [real(f"l{j}", 0) for j in range(16)]
     else:
@@ -336,7 +351,7 @@ def run_job(job, deadline):
     tier = "quick"
     if job["kind"] == "containers":
         cfgs = configs(argnames, tier, rnd, feats) if ep != "mf2" else [{"sf2": c} for c in MF2_CONFIGS]
-        if ep in ("moment", "lagrangian", "gs", "to"):
+        if ep in ("moment", "bgl", "lagrangian", "gs", "to"):
             extra = []
             for pat in INDEX_PATTERNS[1:]:
                 c = {a: ("series", pat) for a in argnames}
@@ -390,7 +405,7 @@ def run_job(job, deadline):
             b = fn(v, _args(ep, v, base_cfg, r2))
             if perm == "rename":
                 return b, fn(v, _args(ep, v, base_cfg, r2, rename=rename)), "rename"
-            if ep in ("moment", "lagrangian", "gs"):
+            if ep in ("moment", "bgl", "lagrangian", "gs"):
                 v2 = dict(v)
                 v2["h"] = [v["h"][i] for i in perm]
                 return b, fn(v2, _args(ep, v2, base_cfg, r2, perm=perm)), perm
@@ -421,7 +436,7 @@ def run_job(job, deadline):
                     ok = set(map(str, b)) == set(bx)
                     f = z3.And([O.same(val, bx[str(k)]) for k, val in b.items()]) if ok else z3.BoolVal(False)
                     acc.check(ctx, "joint_row_permutation_leaves_metrics_unchanged", f, signature=f"{ep}:perm", extra=ex)
-                elif ep == "moment":
+                elif ep in ("moment", "bgl"):
                     gk = [k for k in b if str(k).startswith("gamma")]
                     f = z3.And([O.same(b[k], x[k]) for k in gk] + [O.same(b[f"w{perm[i]}"], x[f"w{i}"]) for i in range(N)]) if set(b) == set(x) else z3.BoolVal(False)
                     acc.check(ctx, "joint_row_permutation_permutes_weights_keeps_gamma", f, signature=f"{ep}:perm", extra=ex)
@@ -465,7 +480,7 @@ def replay(cex):
         v = {"w": [f(f"w{i}", float(i + 1)) for i in range(N)]}
     elif ep == "fairw":
         v = {"bp": [int(f(f"bp{i}", float(i % 2))) for i in range(N)]}
-    elif ep in ("moment", "lagrangian", "gs"):
+    elif ep in ("moment", "bgl", "lagrangian", "gs"):
         v = {"h": [f(f"h{i}", 0.1 * (i + 1)) for i in range(N)], "lam": [f(f"l{j}", 0.3 * (j + 1)) for j in range(16)]}
     else:
         v = {"scores": [f(f"s{i}", 0.2 * (i + 1)) for i in range(N)]}
@@ -497,7 +512,7 @@ def replay(cex):
         if ep in ("mf", "fair"):
             bx = {str(k): val for k, val in x.items()}
             bad = [f"{k}: {val} vs {bx.get(str(k))}" for k, val in b.items() if str(k) not in bx or not _close(val, bx[str(k)])]
-        elif ep == "moment":
+        elif ep in ("moment", "bgl"):
             bad = [k for k in b if str(k).startswith("gamma") and not _close(b[k], x[k])] + [f"w{i}" for i in range(N) if not _close(b[f"w{perm[i]}"], x[f"w{i}"])]
         elif ep in ("lagrangian", "gs"):
             bad = [i for i in range(N) if b[f"redY{perm[i]}"] != x[f"redY{i}"] or not _close(b[f"redW{perm[i]}"], x[f"redW{i}"])]
